@@ -258,6 +258,9 @@ func genC11(tier string, r *rng) {
 		"ext@" + hx([]byte("x-foo")) + ":" + hx([]byte("k")) + "=" + hx([]byte("v w")) + "|" + pmd + ":" + hx([]byte("server_max_window_bits")) + "=" + hx([]byte("9")),
 		"proto@" + hx([]byte("b")) + "/ext@" + pmd + ":/hdr@" + hx([]byte("Origin: http://x\r\nX-Long: "+strings.Repeat("h", 200)+"\r\n")),
 		"host@" + hx([]byte("other.example")) + "/proto@" + hx([]byte("chat")) + "|" + hx([]byte("superchat")),
+		// subprotocol names that differ in case only (tokens are case-sensitive: both sides must report the same spelling)
+		"proto@" + hx([]byte("Chat")) + "|" + hx([]byte("chat")),
+		"proto@" + hx([]byte("B")) + "|" + hx([]byte("c")) + "|" + hx([]byte("b")),
 		// several extensions in one offer, parameters on the first / the middle / the last / all
 		"ext@" + hx([]byte("x-foo")) + ":" + hx([]byte("k")) + "=" + hx([]byte("v")) + "," + hx([]byte("flag")) + "=" + "|" + hx([]byte("x-bar")) + ":" + "|" + pmd + ":",
 		"ext@" + hx([]byte("x-bar")) + ":" + "|" + hx([]byte("x-foo")) + ":" + hx([]byte("k")) + "=" + hx([]byte("v")) + "|" + hx([]byte("x-baz")) + ":",
